@@ -68,3 +68,71 @@ package types
 //@   requires t != nil && forall(k, 0, len(t.Fields), t.Fields[k] != nil)
 //@   ensures unfold(boxed(t)) ==> result == teq(boxed(t), u)
 //@   loop 0: invariant 0 <= i && i <= len(t.Fields) && len(t.Fields) == len(u.Fields) && forall(k, 0, i, teq(t.Fields[k], u.Fields[k]))
+
+//@ # ---------------------------------------------------------------- C03 / C14 / C16 (naming a type) ---
+//@ # SetName writes the name of the type it is called on -- that field and nothing else (the body, and every other
+//@ # type, stay as they are): what Module.NewTypeDef relies on.
+//@ macro tnamed(t Type, n string) bool = (typeis(t, "*types.VoidType") ==> cast(t, "*types.VoidType").TypeName == n) && (typeis(t, "*types.FuncType") ==> cast(t, "*types.FuncType").TypeName == n) && (typeis(t, "*types.IntType") ==> cast(t, "*types.IntType").TypeName == n) && (typeis(t, "*types.FloatType") ==> cast(t, "*types.FloatType").TypeName == n) && (typeis(t, "*types.MMXType") ==> cast(t, "*types.MMXType").TypeName == n) && (typeis(t, "*types.PointerType") ==> cast(t, "*types.PointerType").TypeName == n) && (typeis(t, "*types.VectorType") ==> cast(t, "*types.VectorType").TypeName == n) && (typeis(t, "*types.LabelType") ==> cast(t, "*types.LabelType").TypeName == n) && (typeis(t, "*types.TokenType") ==> cast(t, "*types.TokenType").TypeName == n) && (typeis(t, "*types.MetadataType") ==> cast(t, "*types.MetadataType").TypeName == n) && (typeis(t, "*types.ArrayType") ==> cast(t, "*types.ArrayType").TypeName == n) && (typeis(t, "*types.StructType") ==> cast(t, "*types.StructType").TypeName == n)
+//@ func iface Type.SetName
+//@   assigns heap(VoidType.TypeName), heap(FuncType.TypeName), heap(IntType.TypeName), heap(FloatType.TypeName), heap(MMXType.TypeName), heap(PointerType.TypeName), heap(VectorType.TypeName), heap(LabelType.TypeName), heap(TokenType.TypeName), heap(MetadataType.TypeName), heap(ArrayType.TypeName), heap(StructType.TypeName)
+//@   ensures tnamed(self, name)
+//@ func (*VoidType).SetName
+//@   props C03 C14 C16
+//@   requires t != nil
+//@   assigns t.TypeName
+//@   ensures t.TypeName == name
+//@ func (*FuncType).SetName
+//@   props C03 C14 C16
+//@   requires t != nil
+//@   assigns t.TypeName
+//@   ensures t.TypeName == name
+//@ func (*IntType).SetName
+//@   props C03 C14 C16
+//@   requires t != nil
+//@   assigns t.TypeName
+//@   ensures t.TypeName == name
+//@ func (*FloatType).SetName
+//@   props C03 C14 C16
+//@   requires t != nil
+//@   assigns t.TypeName
+//@   ensures t.TypeName == name
+//@ func (*MMXType).SetName
+//@   props C03 C14 C16
+//@   requires t != nil
+//@   assigns t.TypeName
+//@   ensures t.TypeName == name
+//@ func (*PointerType).SetName
+//@   props C03 C14 C16
+//@   requires t != nil
+//@   assigns t.TypeName
+//@   ensures t.TypeName == name
+//@ func (*VectorType).SetName
+//@   props C03 C14 C16
+//@   requires t != nil
+//@   assigns t.TypeName
+//@   ensures t.TypeName == name
+//@ func (*LabelType).SetName
+//@   props C03 C14 C16
+//@   requires t != nil
+//@   assigns t.TypeName
+//@   ensures t.TypeName == name
+//@ func (*TokenType).SetName
+//@   props C03 C14 C16
+//@   requires t != nil
+//@   assigns t.TypeName
+//@   ensures t.TypeName == name
+//@ func (*MetadataType).SetName
+//@   props C03 C14 C16
+//@   requires t != nil
+//@   assigns t.TypeName
+//@   ensures t.TypeName == name
+//@ func (*ArrayType).SetName
+//@   props C03 C14 C16
+//@   requires t != nil
+//@   assigns t.TypeName
+//@   ensures t.TypeName == name
+//@ func (*StructType).SetName
+//@   props C03 C14 C16
+//@   requires t != nil
+//@   assigns t.TypeName
+//@   ensures t.TypeName == name
